@@ -16,7 +16,7 @@ CONSTANTS
   MaxTasks = 2
   MaxLanes = 1
   Vals = {"", "true"}
-  MaxDepth = 9
+  MaxDepth = 7
   MaxOcc = 3
   PruneTerminal = FALSE
   Clk0 = 1
